@@ -4,6 +4,7 @@ import (
 	"fmt"
 	"go/token"
 	"go/types"
+	"os"
 	"sort"
 	"strings"
 
@@ -373,8 +374,33 @@ func findLoops(fn *ssa.Function) map[*ssa.BasicBlock]*loopInfo {
 	for h := range loops {
 		heads = append(heads, h)
 	}
+	posOf := func(h *ssa.BasicBlock) token.Pos {
+		best := token.NoPos
+		for _, in := range h.Instrs {
+			if p := in.Pos(); p.IsValid() && (best == token.NoPos || p < best) {
+				best = p
+			}
+		}
+		if best == token.NoPos {
+			// a range loop's head has no positioned instruction: use its successors inside the loop body
+			for _, s := range h.Succs {
+				if !loops[h].body[s] {
+					continue
+				}
+				for _, in := range s.Instrs {
+					if p := in.Pos(); p.IsValid() && (best == token.NoPos || p < best) {
+						best = p
+					}
+				}
+			}
+		}
+		if best == token.NoPos {
+			best = blockPos(h)
+		}
+		return best
+	}
 	sort.Slice(heads, func(i, j int) bool {
-		pi, pj := blockPos(heads[i]), blockPos(heads[j])
+		pi, pj := posOf(heads[i]), posOf(heads[j])
 		if pi != pj {
 			return pi < pj
 		}
@@ -382,6 +408,22 @@ func findLoops(fn *ssa.Function) map[*ssa.BasicBlock]*loopInfo {
 	})
 	for i, h := range heads {
 		loops[h].ord = i + 1
+	}
+	if os.Getenv("GOVC_LOOPORD") != "" {
+		old := append([]*ssa.BasicBlock(nil), heads...)
+		sort.Slice(old, func(i, j int) bool {
+			pi, pj := blockPos(old[i]), blockPos(old[j])
+			if pi != pj {
+				return pi < pj
+			}
+			return old[i].Index < old[j].Index
+		})
+		for i := range old {
+			if old[i] != heads[i] {
+				fmt.Fprintf(os.Stderr, "LOOPORD differs: %s\n", fn.String())
+				break
+			}
+		}
 	}
 	return loops
 }
